@@ -180,22 +180,38 @@ def bind_args(eng, fi, args, kwargs, s):
     kwargs = dict(kwargs)
     dstar = kwargs.pop("**", None)
     kwnames = [x.arg for x in a.kwonlyargs]
+    extra_kw = {}
     for k, v in kwargs.items():
         if k in bound:
             return None
         if k in names or k in kwnames:
             bound[k] = v
         elif a.kwarg is not None:
-            raise Unsupported("**kwargs parameter with explicit keywords")
+            extra_kw[k] = v
         else:
             return None
+    if a.kwarg is not None and dstar is None:
+        d = eng.new_dict(s)
+        for k, v in extra_kw.items():
+            s.heap = s.heap.dset(d.ref, VStr(z3.StringVal(k)), eng.as_val(s, v).t)
+        bound[a.kwarg.arg] = d
+    elif extra_kw:
+        raise Unsupported("**kwargs parameter with explicit keywords and **d")
     if dstar is not None:
         d = eng.as_val(s, dstar)
         h = s.heap
         s.assume(*h.dict_wf(d.ref))
         missing = [n for n in names + kwnames if n not in bound]
         if a.kwarg is not None:
-            raise Unsupported("**d into **kwargs")
+            # f(x, **d) where f takes **kw: keys of d that are parameter names are not supported; d is passed on whole
+            if missing:
+                raise Unsupported("**d into a function with **kwargs and unbound parameters")
+            bound[a.kwarg.arg] = d
+            dstar = None
+    if dstar is not None:
+        d = eng.as_val(s, dstar)
+        h = s.heap
+        missing = [n for n in names + kwnames if n not in bound]
         # every key of d must be one of the still-unbound parameters, and cover the required ones
         i = z3.Int("ks_i")
         keyvals = [VStr(z3.StringVal(n)) for n in missing]
